@@ -6,6 +6,7 @@ import (
 	"fmt"
 	"math"
 
+	"gonum.org/v1/gonum/blas/blas64"
 	"gonum.org/v1/gonum/internal/verif/vlib"
 	"gonum.org/v1/gonum/mat"
 )
@@ -162,5 +163,88 @@ func genEmpty(g *vlib.G) {
 			}
 			t.Outcome("Dense ops panic with mat.Error")
 		})
+	}
+}
+
+// genRawLong: a VecDense set with SetRawVector whose Data is longer than (N-1)*Inc+1, as BLAS vectors allow.
+// Kept out of the general zoo on purpose: the unit-increment fast paths hand the raw slices to assembly kernels
+// that loop over len(x), so with an exactly allocated receiver the unchanged tree writes past the end of the
+// receiver's array (heap corruption). Here every receiver has a poisoned tail inside the same allocation that
+// absorbs (and reveals) such writes.
+func genRawLong(g *vlib.G) {
+	type op struct {
+		name string
+		do   func(v *mat.VecDense, a, b *mat.VecDense)
+		want func(a, b []float64) []float64
+	}
+	ops := []op{
+		{"ScaleVec", func(v, a, b *mat.VecDense) { v.ScaleVec(2, a) }, func(a, b []float64) []float64 { return zipV(a, a, func(x, _ float64) float64 { return 2 * x }) }},
+		{"AddVec", func(v, a, b *mat.VecDense) { v.AddVec(a, b) }, func(a, b []float64) []float64 { return zipV(a, b, func(x, y float64) float64 { return x + y }) }},
+		{"SubVec", func(v, a, b *mat.VecDense) { v.SubVec(a, b) }, func(a, b []float64) []float64 { return zipV(a, b, func(x, y float64) float64 { return x - y }) }},
+		{"MulElemVec", func(v, a, b *mat.VecDense) { v.MulElemVec(a, b) }, func(a, b []float64) []float64 { return zipV(a, b, func(x, y float64) float64 { return x * y }) }},
+		{"DivElemVec", func(v, a, b *mat.VecDense) { v.DivElemVec(a, b) }, func(a, b []float64) []float64 { return zipV(a, b, func(x, y float64) float64 { return x / y }) }},
+		{"AddScaledVec", func(v, a, b *mat.VecDense) { v.AddScaledVec(a, 2, b) }, func(a, b []float64) []float64 { return zipV(a, b, func(x, y float64) float64 { return x + 2*y }) }},
+		{"CopyVec", func(v, a, b *mat.VecDense) { v.CopyVec(a) }, func(a, b []float64) []float64 { return a }},
+		{"MulVec(Tᵀ·)", func(v, a, b *mat.VecDense) { v.MulVec(a.T(), b) }, func(a, b []float64) []float64 { return []float64{dotV(a, b)} }},
+		{"Dot", func(v, a, b *mat.VecDense) { v.SetVec(0, mat.Dot(a, b)) }, func(a, b []float64) []float64 { return []float64{dotV(a, b)} }},
+		{"Sum", func(v, a, b *mat.VecDense) { v.SetVec(0, mat.Sum(a)) }, func(a, b []float64) []float64 { return []float64{sumM(matrix{a})} }},
+		{"Norm1", func(v, a, b *mat.VecDense) { v.SetVec(0, mat.Norm(a, 1)) }, func(a, b []float64) []float64 { return []float64{norm1M(transposeM(matrix{a}))} }},
+	}
+	mk := func(long bool, n, seed int) (*mat.VecDense, []float64) {
+		vals := make([]float64, n)
+		for i := range vals {
+			vals[i] = value(famNonzero, i, 0, seed)
+		}
+		if !long {
+			return mat.NewVecDense(n, append([]float64(nil), vals...)), vals
+		}
+		data := poisoned(n + 3)
+		copy(data, vals)
+		var v mat.VecDense
+		v.SetRawVector(blas64.Vector{N: n, Inc: 1, Data: data})
+		return &v, vals
+	}
+	for _, o := range ops {
+		o := o
+		for _, which := range []string{"a", "b", "both"} {
+			which := which
+			g.Case(fmt.Sprintf("%s long=%s", o.name, which), func(t *vlib.T) {
+				t.Nontrivial()
+				bad := 0
+				for n := 1; n <= vecLenMax(g); n++ {
+					a, av := mk(which != "b", n, 1)
+					b, bv := mk(which != "a", n, 2)
+					want := o.want(av, bv)
+					// receiver: exactly len(want) elements, followed by a poisoned tail in the same allocation
+					back := rpoisoned(len(want) + 8)
+					for i := range want {
+						back[i] = 0
+					}
+					v := mat.NewVecDense(len(want), back[:len(want)])
+					tag := fmt.Sprintf("%s n=%d (operand %s set with SetRawVector, len(Data) = N+3)", o.name, n, which)
+					t.Count("calls", 1)
+					if p, pv := mustPanic(func() { o.do(v, a, b) }); p {
+						failClass(t, "vecdense-unit-fastpath-uses-raw-data-length", "%s: panic %s", tag, panicString(pv))
+						bad++
+						continue
+					}
+					for i, w := range want {
+						if !eqVal(back[i], w) {
+							failClass(t, "vecdense-unit-fastpath-uses-raw-data-length", "%s: element %d = %s want %v", tag, i, vlib.B64(back[i]), w)
+							bad++
+							break
+						}
+					}
+					for k := len(want); k < len(back); k++ {
+						if math.Float64bits(back[k]) != math.Float64bits(rpoison(k)) {
+							failClass(t, "vecdense-unit-fastpath-uses-raw-data-length", "%s: wrote %s past the end of the receiver (cell %d of a length-%d vector): out-of-bounds write", tag, vlib.B64(back[k]), k, len(want))
+							bad++
+							break
+						}
+					}
+				}
+				t.Outcome(fmt.Sprintf("%s bad=%v", o.name, bad > 0))
+			})
+		}
 	}
 }
